@@ -20,9 +20,46 @@ from ..rules.common import explore, where, short, self_attr, path_terms
 from .c10 import id_filters
 
 
+NARROW = ("float32", "float16", "int8", "int16", "int32", "uint8", "uint16", "uint32", "half", "single")
+
+
+def no_narrowing(ck, rule):
+    """Label coordinates and lengths are carried at full precision from the file to the OpticalMap: no astype()/dtype=
+    to a narrower numeric type, no rounding, in the reader chain (a float32 cannot represent coordinates above 16.7 Mb
+    to 1 bp)."""
+    ctx = ck.ctx
+    p = ctx.p
+    fns = [f for f in p.nontest_functions() if f.module.name in ("src.parsers.cmap_reader", "src.parsers.bionano_file_reader")
+           and not f.is_lambda]
+    n = 0
+    for f in fns:
+        for node in ast.walk(f.node):
+            if not isinstance(node, ast.Call):
+                continue
+            n += 1
+            name = node.func.attr if isinstance(node.func, ast.Attribute) else (node.func.id if isinstance(node.func, ast.Name) else "")
+            text = ast.unparse(node)
+            narrow = [t for t in NARROW if t in text]
+            if name in ("astype", "to_numeric", "downcast") and narrow:
+                ck.violation(rule, short(f) + ":" + name, where(f, node), "coordinates are converted to a narrower numeric type while "
+                             "reading: positions and lengths no longer equal the values in the CMAP text for large coordinates",
+                             found=text[:160], required="keep the parsed float64/int64 values")
+            elif any(k.arg in ("dtype", "downcast") and any(t in ast.unparse(k.value) for t in NARROW + ("float",)) and
+                     any(t in ast.unparse(k.value) for t in NARROW) for k in node.keywords):
+                ck.violation(rule, short(f) + ":dtype", where(f, node), "a narrow dtype is requested for coordinates while reading",
+                             found=text[:160], required="default (64-bit) dtypes")
+            elif name in ("round", "floor", "ceil", "trunc") and "Position" in text:
+                ck.violation(rule, short(f) + ":" + name, where(f, node), "label coordinates are rounded while reading",
+                             found=text[:160])
+    ck.floor(f"{rule} calls inspected in the reader chain", n, 8)
+    ck.ok(rule, "reader-chain:precision", fns[0].where if fns else "", f"{n} calls in the CMAP reader chain: no narrowing conversion of coordinates")
+
+
 def run(ck):
     ctx = ck.ctx
     p = ctx.p
+    ck.clause("C17.6", "coordinates are carried at full precision through the reader")
+    no_narrowing(ck, "C17.6")
     ck.clause("C17.1", "label positions are sorted while reading")
     ck.clause("C17.2", "label rows / end marker split by complementary predicates; length from the end marker")
     ck.clause("C17.3", "one id column; requested columns cover the used ones; label-less molecules dropped; empty file -> []")
@@ -57,6 +94,17 @@ def run(ck):
         length = a.get("length")
         label_mask = [m for m in masks if T.contains(pos, T.mk_idx(group, m))] if pos else []
         end_mask = [m for m in masks if T.contains(length, T.mk_idx(group, m))] if length else []
+        if len(label_mask) == 1 and not end_mask and length is not None and T.contains(length, group):
+            ck.violation("C17.2", short(parse) + ":end-marker", w,
+                         "the molecule length is not read from the end-marker row (LabelChannel == 0): it depends on which row "
+                         "happens to be picked (row order in the file)", found=T.show(length)[:200],
+                         required="int(group[group['LabelChannel'] == 0].iloc[0]['Position'])")
+            continue
+        if len(end_mask) == 1 and not label_mask and pos is not None and T.contains(pos, group):
+            ck.violation("C17.2", short(parse) + ":complementary", w,
+                         "label rows are not selected by the channel test complementary to the end marker's",
+                         found=T.show(pos)[:200], required="group[group['LabelChannel'] != 0]['Position']")
+            continue
         if len(label_mask) != 1 or len(end_mask) != 1:
             raise AnalysisError(f"{w}: channel masks for label rows / end marker not recognised ({len(label_mask)}, {len(end_mask)})")
         lm, em = label_mask[0], end_mask[0]
@@ -152,6 +200,13 @@ def run(ck):
     ck.judge(not r_trim and rt[0] == "app" and rt[1].endswith("CmapReader.readReferences"), "C17.4", "Program.__readMaps:references",
              where(rm, rn), "references keep their original coordinates (not trimmed)", found=T.show(rt)[:200],
              required="readReferences(...) unmodified")
+    trim_formulae(ck, "C17.5")
+
+
+def trim_formulae(ck, rule):
+    ctx = ck.ctx
+    p = ctx.p
+    trim = p.find_method("OpticalMap", "trim")
     # ---- C17.5
     positions = self_attr("positions")
     first, last = T.mk_idx(positions, C(0)), T.mk_idx(positions, C(-1))
@@ -162,16 +217,16 @@ def run(ck):
         v = pa.value
         w = where(trim, pa.node)
         if v == V(trim.self_name):
-            ck.judge(pa.facts.get(positions) is False, "C17.5", short(trim) + ":empty", w, "only a map without labels is returned unchanged",
+            ck.judge(pa.facts.get(positions) is False, rule, short(trim) + ":empty", w, "only a map without labels is returned unchanged",
                      found=pa.describe()[:120], required="not self.positions")
             continue
         if v[0] != "new":
             raise AnalysisError(f"{w}: trim result not recognised: {T.show(v)[:120]}")
         n += 1
         a = dict(v[2])
-        ck.judge(a.get("moleculeId") == self_attr("moleculeId"), "C17.5", short(trim) + ":id", w, "trim keeps the molecule id",
+        ck.judge(a.get("moleculeId") == self_attr("moleculeId"), rule, short(trim) + ":id", w, "trim keeps the molecule id",
                  found=T.show(a.get("moleculeId", C(None))))
-        ck.judge(a.get("length") == T.p_add(T.p_sub(last, first), C(1)), "C17.5", short(trim) + ":length", w,
+        ck.judge(a.get("length") == T.p_add(T.p_sub(last, first), C(1)), rule, short(trim) + ":length", w,
                  "trimmed length = last - first + 1", found=T.show(a.get("length", C(None))), required=T.show(T.p_add(T.p_sub(last, first), C(1))))
         pos = a.get("positions")
         inner = pos
@@ -185,8 +240,8 @@ def run(ck):
         elif inner is not None and inner[0] == "comp" and len(inner[3]) == 1 and not inner[3][0][1]:
             bv = [x for x in T.subterms(inner[2]) if x[0] == "bv"]
             okp = bool(bv) and inner[2] == T.p_sub(bv[0], first) and inner[3][0][0] == positions
-        ck.judge(okp, "C17.5", short(trim) + ":positions", w, "every label is shifted by the first label's coordinate",
+        ck.judge(okp, rule, short(trim) + ":positions", w, "every label is shifted by the first label's coordinate",
                  found=T.show(pos)[:160] if pos else "None", required="[p - self.positions[0] for p in self.positions]")
-        ck.judge("shift" not in a or a["shift"] == self_attr("shift"), "C17.5", short(trim) + ":shift", w,
+        ck.judge("shift" not in a or a["shift"] == self_attr("shift"), rule, short(trim) + ":shift", w,
                  "trim does not invent a label-number offset", found=T.show(a.get("shift", C(0))))
-    ck.floor("C17.5 trimming return paths", n, 1)
+    ck.floor(f"{rule} trimming return paths", n, 1)
